@@ -8,7 +8,6 @@ import (
 
 	"github.com/unixpickle/model3d/model2d"
 	"pgregory.net/rapid"
-	"verifharness/gen"
 	"verifharness/kit"
 )
 
@@ -62,7 +61,7 @@ func genTs(t *rapid.T, n int) []float64 {
 		case 1:
 			ts = append(ts, 1)
 		default:
-			ts = append(ts, gen.F(t, 0, 1, "t"))
+			ts = append(ts, F(t, 0, 1, "t"))
 		}
 	}
 	return ts
@@ -72,7 +71,7 @@ func genBez(t *rapid.T) bezCase {
 	deg := rapid.IntRange(1, 16).Draw(t, "degree")
 	var c bezCase
 	for i := 0; i <= deg; i++ {
-		c.P = append(c.P, gen.Vec2(t, 3, "p"))
+		c.P = append(c.P, Vec2(t, 3, "p"))
 	}
 	c.T = genTs(t, 4)
 	c.ST = genTs(t, 1)[0]
@@ -178,15 +177,15 @@ type monoCase struct {
 
 func genMono(t *rapid.T) monoCase {
 	deg := rapid.IntRange(1, 16).Draw(t, "degree")
-	c := monoCase{X0: gen.F(t, -3, 3, "x0"), Rev: rapid.Bool().Draw(t, "rev")}
+	c := monoCase{X0: F(t, -3, 3, "x0"), Rev: rapid.Bool().Draw(t, "rev")}
 	for i := 0; i < deg; i++ {
-		c.DX = append(c.DX, gen.F(t, 0.05, 1, "dx"))
+		c.DX = append(c.DX, F(t, 0.05, 1, "dx"))
 	}
 	for i := 0; i <= deg; i++ {
-		c.Y = append(c.Y, gen.F(t, -3, 3, "y"))
+		c.Y = append(c.Y, F(t, -3, 3, "y"))
 	}
 	c.T = genTs(t, 3)
-	c.Over = gen.LogF(t, 0.01, 10, "over")
+	c.Over = LogF(t, 0.01, 10, "over")
 	return c
 }
 
@@ -272,9 +271,9 @@ func genLen(t *rapid.T) lenCase {
 	}
 	var c lenCase
 	for i := 0; i <= deg; i++ {
-		c.P = append(c.P, gen.Vec2(t, 3, "p"))
+		c.P = append(c.P, Vec2(t, 3, "p"))
 	}
-	c.Tol = gen.LogF(t, 1e-5, 1e-1, "tol")
+	c.Tol = LogF(t, 1e-5, 1e-1, "tol")
 	return c
 }
 
@@ -325,10 +324,10 @@ type segCase struct {
 
 func genSeg(t *rapid.T) segCase {
 	n := rapid.IntRange(1, 12).Draw(t, "segments")
-	c := segCase{Start: gen.Vec2(t, 3, "start"), Mesh: rapid.Bool().Draw(t, "mesh")}
+	c := segCase{Start: Vec2(t, 3, "start"), Mesh: rapid.Bool().Draw(t, "mesh")}
 	for i := 0; i < n; i++ {
-		c.Steps = append(c.Steps, gen.Dir2(t, "dir"))
-		c.Lens = append(c.Lens, gen.LogF(t, 0.05, 3, "len"))
+		c.Steps = append(c.Steps, dir2(t, "dir"))
+		c.Lens = append(c.Lens, LogF(t, 0.05, 3, "len"))
 	}
 	c.T = genTs(t, 4)
 	// parameters exactly at vertices (the lookup boundary)
@@ -437,12 +436,12 @@ type joinCase struct {
 func genJoin(t *rapid.T) joinCase {
 	n := rapid.IntRange(1, 6).Draw(t, "pieces")
 	var c joinCase
-	last := gen.Vec2(t, 3, "start")
+	last := Vec2(t, 3, "start")
 	for i := 0; i < n; i++ {
 		deg := rapid.IntRange(1, 3).Draw(t, "degree")
 		p := []kit.V2{last}
 		for k := 0; k < deg; k++ {
-			p = append(p, gen.Vec2(t, 3, "p"))
+			p = append(p, Vec2(t, 3, "p"))
 		}
 		last = p[deg]
 		c.Pieces = append(c.Pieces, p)
@@ -453,11 +452,11 @@ func genJoin(t *rapid.T) joinCase {
 			// exactly at a joint
 			c.T = append(c.T, float64(rapid.IntRange(0, n).Draw(t, "joint"))/float64(n))
 		case 1:
-			c.T = append(c.T, gen.F(t, -1, 0, "tbelow"))
+			c.T = append(c.T, F(t, -1, 0, "tbelow"))
 		case 2:
-			c.T = append(c.T, gen.F(t, 1, 2, "tabove"))
+			c.T = append(c.T, F(t, 1, 2, "tabove"))
 		default:
-			c.T = append(c.T, gen.F(t, 0, 1, "t"))
+			c.T = append(c.T, F(t, 0, 1, "t"))
 		}
 	}
 	return c
@@ -487,6 +486,9 @@ func checkJoined(c joinCase, o *kit.Obs) error {
 		}
 	}
 	o.Labelf("pieces:%d", n)
+	if err := checkSmoothBezier(c, scale); err != nil {
+		return err
+	}
 	for _, t := range c.T {
 		if !(t >= -1 && t <= 2) {
 			return fmt.Errorf("%w: parameter outside [-1, 2]", kit.ErrInfra)
@@ -524,6 +526,52 @@ func checkJoined(c joinCase, o *kit.Obs) error {
 		}
 		if !within("joined/eval", e, tol) {
 			return fmt.Errorf("JoinedCurve of %d pieces: Eval(%v) = %v, piece %d at local parameter %v is %v (distance %g)", n, t, got, idx, u-float64(idx), want, e)
+		}
+	}
+	return nil
+}
+
+// checkSmoothBezier feeds the control points of the case to SmoothBezier and compares every piece with
+// the documented construction: the first four points form the first cubic; afterwards each (control,
+// end) pair forms a cubic that starts at the previous end with the previous control point reflected.
+func checkSmoothBezier(c joinCase, scale float64) error {
+	var pts []kit.V2
+	for i, p := range c.Pieces {
+		if i == 0 {
+			pts = append(pts, p...)
+		} else {
+			pts = append(pts, p[1:]...)
+		}
+	}
+	if len(pts) < 4 {
+		return nil
+	}
+	extra := (len(pts) - 4) / 2 * 2
+	pts = pts[:4+extra]
+	cc := func(v kit.V2) model2d.Coord { return model2d.XY(v[0], v[1]) }
+	var rest []model2d.Coord
+	for _, v := range pts[4:] {
+		rest = append(rest, cc(v))
+	}
+	j := model2d.SmoothBezier(cc(pts[0]), cc(pts[1]), cc(pts[2]), cc(pts[3]), rest...)
+	if len(j) != 1+extra/2 {
+		return fmt.Errorf("SmoothBezier with %d extra points returned %d curves, want %d", extra, len(j), 1+extra/2)
+	}
+	want := [][]kit.V2{pts[:4]}
+	for i := 4; i < len(pts); i += 2 {
+		prev := want[len(want)-1]
+		end, ctrl := prev[3], prev[2]
+		want = append(want, []kit.V2{end, {2*end[0] - ctrl[0], 2*end[1] - ctrl[1]}, pts[i], pts[i+1]})
+	}
+	for k, w := range want {
+		b, ok := j[k].(model2d.BezierCurve)
+		if !ok || len(b) != 4 {
+			return fmt.Errorf("SmoothBezier piece %d is not a cubic BezierCurve", k)
+		}
+		for i := range w {
+			if e := w[i].Dist(kit.V2{b[i].X, b[i].Y}); !within("joined/smooth-bezier", e, 1e-13*scale) {
+				return fmt.Errorf("SmoothBezier piece %d control point %d is %v, documented construction gives %v", k, i, b[i], w[i])
+			}
 		}
 	}
 	return nil
